@@ -53,6 +53,7 @@ class Record(object):
         self._frozen = None
         self.orphan_wrote = False
         self.forced_state = {}
+        self.observed = []
 
     def flag(self, name):
         return self.flag_dir / name
@@ -220,6 +221,11 @@ class _Shim(object):
             return self._real.Process(*a, **kw)
         index = self._rec.started
         self._rec.started += 1
+        observe = self._plan.get('observe')
+        if observe is not None:
+            # parent side, at dispatch: what the worker is handed
+            self._rec.observed.append(
+                observe(index, dict(kw.get('kwargs', {}))))
         p = self._real.Process(
             target=_child_entry,
             args=(index, target, tuple(kw.get('args', ())),
@@ -258,9 +264,11 @@ def inject(stage, worker_index, point, mode):
     return instrument(stage, plan)
 
 
-def count_workers(stage):
-    """context manager that only numbers the workers (no fault)"""
-    return instrument(stage, {})
+def count_workers(stage, observe=None):
+    """context manager that only numbers the workers (no fault);
+    observe(index, kwargs) is called in the parent for every worker at
+    dispatch and its value appended to rec.observed"""
+    return instrument(stage, {'observe': observe} if observe else {})
 
 
 @contextlib.contextmanager
